@@ -34,7 +34,7 @@ func Run(c *vf.Check) {
 	c.Finish("engine S/E: per group, the closure R of API-reachable point representations (seeds, sums, negations, multiples incl. Mul(s,nil), decoded forms) and the reduced scalar set (alphabet S(q) + arithmetic results). "+
 		"Per value: encoding length = MarshalSize = PointLen/ScalarLen; decode into receivers in 4 prior states (fresh, identity, base, projective sum) succeeds, is Equal, re-encodes identically; MarshalTo writes exactly the bytes; "+
 		"UnmarshalFrom under readers {whole, one-byte, half, data+EOF, trailing data} gives the value and under {one byte short, empty} an error; hex helpers (ToStringHex/StringHexTo/ReadHex/WriteHex) carry exactly hex(bytes); encoding twice is identical and leaves the value Equal to a prior copy; all pairs: Equal <=> identical bytes <=> model equality. "+
-		"Advertised lengths on every exported configuration of edwards25519vartime ({Curve1174, Ed25519, E-382, Curve41417, E-521} x {projective, extended} x {prime-order subgroup, full group}): encodings of points and scalars have exactly PointLen / ScalarLen bytes and round-trip. Points of P-256, bn256.G1 and bn254.G1 with x in 0..399 (up to 24 per curve, both signs of y; leading zero bytes in the fixed-width encoding) built from the curve equation: decoded, re-encoded through every encoder, negated, and reached by arithmetic. kilic G1/G2 groups with a caller-supplied tag: originals, clones, decoded copies: Equal <=> identical bytes. non-trivial = value is not the identity/zero; distinct by (group, value expression, sub-check)",
+		"Advertised lengths on every exported configuration of edwards25519vartime ({Curve1174, Ed25519, E-382, Curve41417, E-521, and Ed448-Goldilocks supplied as a caller's Param - 57-byte points} x {projective, extended} x {prime-order subgroup, full group}): encodings of points and scalars have exactly PointLen / ScalarLen bytes and round-trip. Points of P-256, bn256.G1 and bn254.G1 with x in 0..399 (up to 24 per curve, both signs of y; leading zero bytes in the fixed-width encoding) built from the curve equation: decoded, re-encoded through every encoder, negated, and reached by arithmetic. kilic G1/G2 groups with a caller-supplied tag: originals, clones, decoded copies: Equal <=> identical bytes. non-trivial = value is not the identity/zero; distinct by (group, value expression, sub-check)",
 		[]string{"model equality of points is decided by the free-module model of C01", "readers are io.Reader-conformant (testing/iotest)"}, nil)
 }
 
